@@ -155,19 +155,34 @@ func (w *joeWriter) call(kind string, m *sse.Message) error {
 		// upstream) while the context given to Subscribe is live: it is that subscriber's error all the same
 		switch (w.idx + w.failAt) % 3 {
 		case 0:
-			return ownCtxErr{context.Canceled}
+			return ownCtxErr{context.Canceled, w.idx}
 		case 1:
-			return ownCtxErr{context.DeadlineExceeded}
+			return ownCtxErr{context.DeadlineExceeded, w.idx}
 		}
-		return errOwn
+		return ownCtxErr{nil, w.idx}
 	}
 	return nil
 }
 
-type ownCtxErr struct{ inner error }
+// ownCtxErr: the error of subscriber `who`'s writer (every subscriber's is a value of its own: handing one subscriber the
+// error of another is told apart from handing it its own)
+type ownCtxErr struct {
+	inner error
+	who   int
+}
 
-func (e ownCtxErr) Error() string   { return errOwn.Error() + ": " + e.inner.Error() }
-func (e ownCtxErr) Unwrap() []error { return []error{errOwn, e.inner} }
+func (e ownCtxErr) Error() string {
+	if e.inner == nil {
+		return fmt.Sprintf("%s (subscriber %d)", errOwn.Error(), e.who)
+	}
+	return fmt.Sprintf("%s (subscriber %d): %s", errOwn.Error(), e.who, e.inner.Error())
+}
+func (e ownCtxErr) Unwrap() []error {
+	if e.inner == nil {
+		return []error{errOwn}
+	}
+	return []error{errOwn, e.inner}
+}
 
 // Send does what the library's own Session does with the message: it writes it out
 func (w *joeWriter) Send(m *sse.Message) error {
@@ -318,6 +333,23 @@ func drawScenario(rng *rand.Rand, big bool) joeScenario {
 				sc.pubs = append(sc.pubs, joePub{topics: []int{t}})
 			}
 			sc.pubs = append(sc.pubs, joePub{topics: []int{62, 64, n - 2}})
+			sc.shuts = []string{"end"}
+			return sc
+		}
+		if n%4 == 1 {
+			// … or a replay that fails followed by replays that have nothing to send: two events on different topics are
+			// stored; a resumer of both topics whose writer fails at its first call (in the middle of its replay), then
+			// resumers of the first topic only, from the first event's ID — nothing newer is theirs, nothing is sent to them,
+			// and what happened to the first resumer is nothing to them: they are registered and end with the provider, without an error
+			sc.rep = pick(rng, "finite:4", "finite:6", "valid:5")
+			sc.auto = rng.Intn(2) == 0
+			sc.pubs = []joePub{{topics: []int{0}}, {topics: []int{1}}}
+			sc.subs = []joeSub{
+				{topics: []int{0, 1}, last: "-", cancel: "-", startAt: "0"},
+				{topics: []int{0, 1}, last: "n0", failAt: 1, cancel: "-", startAt: "p1"},
+				{topics: []int{0}, last: "n0", cancel: "-", startAt: "p1"},
+				{topics: []int{0}, last: "n0", cancel: "-", startAt: "p1"},
+			}
 			sc.shuts = []string{"end"}
 			return sc
 		}
@@ -508,6 +540,15 @@ func (sc joeScenario) String() string {
 		return strings.Join(x, "|")
 	}
 	return fmt.Sprintf("rep=%s;auto=%s;subs=%s;pubs=%s;shuts=%s;jitter=%d;cold=%s", sc.rep, b01(sc.auto), j(subs), j(pubs), j(sc.shuts), sc.jitter, b01(sc.cold))
+}
+
+// subErrName: what subscriber i's Subscribe returned — its own writer's error is "own", another subscriber's is named
+func subErrName(err error, i int) string {
+	var oe ownCtxErr
+	if errors.As(err, &oe) && oe.who != i {
+		return fmt.Sprintf("foreign%d", oe.who)
+	}
+	return errName(err, 0)
 }
 
 func errName(err error, k int) string {
@@ -821,7 +862,10 @@ func runJoe(args []string) string {
 			err := joe.Subscribe(ctx, sub)
 			t.mu.Lock()
 			w.returned = true
-			t.add(fmt.Sprintf("sR%d:%s", i, errName(err, 0)))
+			t.add(fmt.Sprintf("sR%d:%s", i, subErrName(err, i)))
+			if strings.HasPrefix(subErrName(err, i), "foreign") {
+				t.fact(fmt.Sprintf("SUBSCRIBE-RETURNED-ANOTHERS-ERROR(sub%d;%s)", i, subErrName(err, i)))
+			}
 			if e, ok := t.gotDone[i]; ok && errName(e, 0) != errName(err, 0) {
 				// no race to excuse it: Subscribe itself took Joe's verdict off the channel and returned something else
 				t.fact(fmt.Sprintf("SUBSCRIBE-DROPPED-JOES-VERDICT(sub%d;%s;%s)", i, errName(e, 0), errName(err, 0)))
